@@ -230,6 +230,8 @@ def rule_R2(ctx):
             idt, val = v[4][0], v[4][1]
             oks = T.has_call(idt, "SettingId") and T.has_call(idt, "u16>::from_be_bytes") and T.has_call(val, "u32>::from_be_bytes")
     step = any(callee_of(t).endswith("saturating_add") and T.fold_int(Q.call_args(sb, SS, blk, t)[1]) == 6 for blk, t in Q.calls(sb, "saturating_add"))
+    # the same stride as an iterator: payload.chunks_exact(6) (complete records only, in order)
+    step = step or any(T.fold_int(Q.call_args(sb, SS, blk, t)[1]) == 6 for blk, t in Q.calls(sb, ["::chunks_exact", "::as_chunks"]))
     rev = Q.calls(sb, ["::rev", "sort", "::reverse", "dedup"])
     ctx.check(oks and step and not rev, "R2", "settings:decode", "records of 6 bytes: id = be16, value = be32, wire order kept",
               "SETTINGS payload decoding is not (be16 id, be32 value) per 6-byte record in wire order", ctx.loc(sb))
